@@ -13,3 +13,4 @@ import DafRel.Props.C20
 #print axioms DafRel.Props.C20.unsupported_construct
 #print axioms DafRel.Props.C20.unsupported_calculation
 #print axioms DafRel.Props.C20.bridge_begin_apply_methods
+#print axioms DafRel.Props.C20.bridge_chain_begin_apply
